@@ -230,6 +230,8 @@ def run_case(args):
         tp.unlink(missing_ok=True)
     res["dup_checks"] = sorted(dup_checks)
     res["twin_checks"] = sorted(twin_checks)
+    if rc == "timeout":
+        return res                    # inconclusive, counted as a case without cores
     if rc not in (0, 1):
         res["problems"].append({"what": f"opensmt terminated abnormally (status {rc})", "stderr": err[-300:]})
         return res
